@@ -154,3 +154,8 @@ def transform_primers(method, x, y, xo, dy_key=None, dy=None, kw=None):
         prim.append((method, (x, y, xo2), base))
     prim.append((method, (x, np.asarray(y, dtype=float) * 1.3 + 0.2, xo), base))
     return prim
+
+
+def exceeds(value, tol):
+    """value > tol, with NaN counting as exceeding (a NaN in a difference must never pass as agreement)"""
+    return not (value <= tol)
